@@ -33,7 +33,7 @@ DEFAULT = {"float_type": "float64", "decimals": 3, "atol": 1e-3, "rtol": 0.0, "a
            "logger": "L0", "factory_manager": "F0"}
 FLOAT_TYPES = {"float64": np.float64, "float32": np.float32, "float16": np.float16, "float": float}
 OBS = ["str", "close", "dtype", "alias", "fm", "logger", "rule", "fll", "vars", "arr", "fld", "fld_late", "mkexp", "ruletext",
-       "termparams", "tofloat", "xy"]
+       "termparams", "tofloat", "xy", "pyexp", "fll_p", "imp", "func"]
 
 _POOL: dict[str, object] = {}
 
@@ -41,6 +41,14 @@ _POOL: dict[str, object] = {}
 class Quite(fl.Hedge):
     def hedge(self, x):
         return x
+
+
+class Tri2(fl.Triangle):
+    pass
+
+
+def _twice(x):
+    return 2.0 * x
 
 
 def pool(code: str):
@@ -54,6 +62,8 @@ def pool(code: str):
         _POOL["F0"] = env.default_factory_manager()
         f1 = fl.FactoryManager()
         f1.hedge.constructors["quite"] = Quite
+        f1.term.constructors["Tri2"] = Tri2
+        f1.function.objects["twice"] = fl.Function.Element("twice", "Twice", "Function", _twice, arity=1, precedence=100)
         _POOL["F1"] = f1
         _POOL["F2"] = fl.FactoryManager()
     return _POOL[code]
@@ -162,6 +172,9 @@ class Interp:
         self.sig: list[str] = []
         ts_engine()
         self.persistent_exporter = fl.FldExporter()  # created outside every context of the program
+        self.persistent_py = fl.PythonExporter(formatted=False)
+        self.persistent_fll = fl.FllExporter()
+        self.persistent_imp = fl.FllImporter()
         self.late_exporter = None
 
     # ---- logging / oracles -------------------------------------------------
@@ -255,6 +268,24 @@ class Interp:
                 self.out.stats.hit("outcomes.caught")
                 if not isinstance(e, Exception):
                     self.out.stats.hit("probes.base_exception_exit")
+        elif kind == "handler":
+            # the body runs while another exception is being handled (sys.exc_info() is set)
+            self.emit(f"{k} HANDLER")
+            self.out.stats.hit("probes.context_inside_exception_handler")
+            try:
+                raise KeyError("outer")
+            except KeyError:
+                sig = self.block(s["body"])
+        elif kind == "finally":
+            # `fin` runs in a finally block, i.e. possibly while an exception of `body` propagates
+            self.emit(f"{k} FINALLY")
+            try:
+                sig = self.block(s["body"])
+            finally:
+                if sys.exc_info()[0] is not None:
+                    self.out.stats.hit("probes.context_inside_finally_while_exception_propagates")
+                sig2 = self.block(s["fin"])
+            sig = sig or sig2
         elif kind == "func":
             self.emit(f"{k} FUNC")
             sig = self.block(s["body"])
@@ -429,6 +460,27 @@ class Interp:
             h = 0.9995
             t = fl.Triangle("t", 0.0, 0.5, 1.0, height=h)
             return str(t), f"term: t Triangle {0.0:.{d}f} {0.5:.{d}f} {1.0:.{d}f}" + ("" if close(h, 1.0) else f" {h:.{d}f}")
+        if what == "pyexp":
+            cls = "fuzzylite.term." if a == "" else ("" if a == "*" else a + ".")
+            t = fl.Triangle("t", 0.0, 0.5, 1.0)
+            return (self.persistent_py.to_string(t).strip(), fl.PythonExporter(formatted=False).to_string(t).strip()), (
+                f"{cls}Triangle('t', 0.0, 0.5, 1.0)",) * 2
+        if what == "fll_p":
+            return self.persistent_fll.to_string(fl.Triangle("t", 1.0 / 3.0, 2.0 / 3.0, 1.0)), \
+                f"term: t Triangle {1 / 3:.{d}f} {2 / 3:.{d}f} {1.0:.{d}f}"
+        if what == "imp":
+            try:
+                self.persistent_imp.term("term: t Tri2 0.0 0.5 1.0")
+                ok = True
+            except ValueError:
+                ok = False
+            return ok, m["factory_manager"] == "F1"
+        if what == "func":
+            try:
+                ok = float(fl.Function.create("f", "twice(x)").membership(0.25)) == 0.5
+            except SyntaxError:
+                ok = False
+            return ok, m["factory_manager"] == "F1"
         if what == "tofloat":
             ft = FLOAT_TYPES[m["float_type"]]
             return type(fl.to_float(1)).__name__, ft.__name__
@@ -462,6 +514,7 @@ class C20(Sim):
         "base_exception_exit", "early_exit_return_break_continue", "exception_passed_a_try_level",
         "rule_loaded_through_swapped_factory", "raise_inside_context", "observation_inside_context",
         "assign_named_key_rolled_back", "assign_unnamed_key_persists", "helper_created_under_other_settings_used_now",
+        "context_inside_exception_handler", "context_inside_finally_while_exception_propagates",
     ]
 
     # ---- generation --------------------------------------------------------
@@ -488,9 +541,14 @@ class C20(Sim):
                 out.append({"k": "assign", "key": key, "v": rng.choice(VALUES[key])})
             elif r < 0.72:
                 out.append({"k": "obs", "what": rng.choice(OBS)})
-            elif r < 0.80:
+            elif r < 0.79:
                 out.append({"k": "try", "body": self.gen_block(rng, depth, budget, in_func, in_loop, raises, named)})
-            elif r < 0.85 and not in_func:
+            elif r < 0.825:
+                out.append({"k": "handler", "body": self.gen_block(rng, depth, budget, in_func, in_loop, raises, named)})
+            elif r < 0.85:
+                out.append({"k": "finally", "body": self.gen_block(rng, depth, budget, in_func, in_loop, raises, named),
+                            "fin": self.gen_block(rng, depth, budget, False, False, False, named)})
+            elif r < 0.875 and not in_func:
                 out.append({"k": "func", "body": self.gen_block(rng, depth, budget, True, False, raises, named)})
             elif r < 0.90 and not in_loop:
                 out.append({"k": "loop", "n": 2, "body": self.gen_block(rng, depth, budget, in_func, True, raises, named)})
@@ -547,7 +605,7 @@ class C20(Sim):
                     if s["k"] == "obs" and s["what"] in ("str", "close", "alias", "fll", "rule", "dtype", "arr", "fld", "ruletext", "termparams"):
                         paths.append(path + [i])
                     if "body" in s:
-                        walk(s["body"], path + [i])
+                        walk(s["body"], path + [i])  # (statements inside `fin` blocks are not line-crashed)
             walk(prog, [])
             rng2 = rng
             for p in paths[:6]:
@@ -604,6 +662,8 @@ class C20(Sim):
                 self._probe_assignments(s["body"], st, named | set(s["kw"]))
             elif "body" in s:
                 self._probe_assignments(s["body"], st, named)
+                if "fin" in s:
+                    self._probe_assignments(s["fin"], st, named)
 
     # ---- shrinking ---------------------------------------------------------
     def shrink_candidates(self, trace: dict) -> Iterator[dict]:
@@ -612,6 +672,12 @@ class C20(Sim):
         def variants(stmts):
             for i, s in enumerate(stmts):
                 yield stmts[:i] + stmts[i + 1:]
+                if "fin" in s:
+                    yield stmts[:i] + s["body"] + s["fin"] + stmts[i + 1:]
+                    for b in variants(s["fin"]):
+                        t = dict(s)
+                        t["fin"] = b
+                        yield stmts[:i] + [t] + stmts[i + 1:]
                 if "body" in s:
                     yield stmts[:i] + s["body"] + stmts[i + 1:]  # unwrap
                     for b in variants(s["body"]):
